@@ -424,12 +424,24 @@ func (h *Header) SetExtension(id uint8, payload []byte) error { //nolint:gocogni
 		}
 
 		// Update existing if it exists else add new extension
+		index := -1
 		for i, extension := range h.Extensions {
 			if extension.id == id {
-				h.Extensions[i].payload = payload
+				index = i
 
-				return nil
+				break
 			}
+		}
+
+		// The length of the extension block is a 16-bit count of 32-bit words.
+		if size := h.extensionsSizeWith(index, len(payload)); size > math.MaxUint16*4 {
+			return fmt.Errorf("%w actual(%d)", errHeaderExtensionBlockSize, size)
+		}
+
+		if index >= 0 {
+			h.Extensions[index].payload = payload
+
+			return nil
 		}
 
 		h.Extensions = append(h.Extensions, Extension{id: id, payload: payload})
@@ -454,6 +466,29 @@ func (h *Header) SetExtension(id uint8, payload []byte) error { //nolint:gocogni
 	h.Extensions = append(h.Extensions, Extension{id: id, payload: payload})
 
 	return nil
+}
+
+// extensionsSizeWith returns the size in bytes of the extension elements if the element at index
+// (a new element if index is negative) had a payload of payloadLen bytes.
+func (h *Header) extensionsSizeWith(index, payloadLen int) int {
+	elementHeader := 0
+	switch extensionForm(h.ExtensionProfile) {
+	case extensionProfileOneByte:
+		elementHeader = 1
+	case extensionProfileTwoByte:
+		elementHeader = 2
+	default: // RFC3550 Extension: a single value
+		return payloadLen
+	}
+
+	size := elementHeader + payloadLen
+	for i, extension := range h.Extensions {
+		if i != index {
+			size += elementHeader + len(extension.payload)
+		}
+	}
+
+	return size
 }
 
 // GetExtensionIDs returns an extension id array.
